@@ -481,8 +481,36 @@ func (fa *FA) expandLoad(v *ssa.UnOp) *Lin {
 		}
 		if g != nil {
 			if rg, ok := fa.A.tables[g]; ok {
-				id := fa.valAtom(v)
+				// the table never changes: two lookups with structurally the same index are one value
+				// (go/ssa has no common-subexpression elimination)
+				var skey func(x ssa.Value, d int) string
+				skey = func(x ssa.Value, d int) string {
+					if cv, ok := x.(*ssa.Convert); ok && d < 4 {
+						return "conv<" + cv.Type().String() + ">(" + skey(cv.X, d+1) + ")"
+					}
+					if ct, ok := x.(*ssa.ChangeType); ok && d < 4 {
+						return "as<" + ct.Type().String() + ">(" + skey(ct.X, d+1) + ")"
+					}
+					if c, ok := x.(*ssa.Const); ok {
+						return "const " + c.String()
+					}
+					return fa.vkey(x)
+				}
+				first := defBlock(v)
+				id := fa.A.atom("tbl:"+fa.id+":"+g.String()+"["+skey(ia.Index, 0)+"]", func(a *Atom) {
+					a.Kind = aVal
+					a.Fn = fa.fn
+					a.owner = fa
+					a.Block = first
+					a.Name = fa.fn.Name() + "." + g.Name() + "[" + ia.Index.Name() + "]"
+				})
 				a := fa.A.at(id)
+				if a.Block != nil && first != nil && a.Block != first && !a.Block.Dominates(first) {
+					// defined where the index is defined at the latest: keep the atom usable from both sites
+					if ib := defBlock(ia.Index); ib != nil {
+						a.Block = ib
+					}
+				}
 				a.Lo, a.Hi = bi(rg[0]), bi(rg[1])
 				return linAtom(id)
 			}
